@@ -41,14 +41,15 @@ type rpResult struct {
 }
 
 type rpProj struct {
-	Err          string     `json:"err,omitempty"`
-	Conforms     bool       `json:"conforms"`
-	HasResultKey bool       `json:"hasResultKey"`
-	Results      []rpResult `json:"results"`
-	ProfileName  string     `json:"profileName"`
-	Date         string     `json:"date"`
-	Schema       string     `json:"schema"`
-	Valid        string     `json:"valid,omitempty"` // structural problems of the document
+	Err              string     `json:"err,omitempty"`
+	Conforms         bool       `json:"conforms"`
+	HasResultKey     bool       `json:"hasResultKey"`
+	Results          []rpResult `json:"results"`
+	ProfileName      string     `json:"profileName"`
+	Date             string     `json:"date"`
+	Schema           string     `json:"schema"`
+	HasLexicalSchema bool       `json:"hasLexicalSchema"`
+	Valid            string     `json:"valid,omitempty"` // structural problems of the document
 }
 
 type rpObs struct {
@@ -161,14 +162,23 @@ func projectRp(rep string, err error, cfg config.ReportConfiguration) rpProj {
 	rs, _ := ctx["reportSchema"].(string)
 	ls, hasLs := ctx["lexicalSchema"].(string)
 	def := config.DefaultReportConfiguration()
+	// the lexical schema only appears in the context of a report that has results
+	repAlt := rs == altReportSchema+"#/declarations/"
+	lexAlt := hasLs && ls == altLexicalSchema+"#/declarations/"
+	known := (repAlt || rs == def.ReportSchemaIri+"#/declarations/") && (!hasLs || lexAlt || ls == def.LexicalSchemaIri+"#/declarations/")
 	switch {
-	case rs == def.ReportSchemaIri+"#/declarations/" && (!hasLs || ls == def.LexicalSchemaIri+"#/declarations/"):
-		p.Schema = "default"
-	case rs == altReportSchema+"#/declarations/" && (!hasLs || ls == altLexicalSchema+"#/declarations/"):
-		p.Schema = "alt"
-	default:
+	case !known:
 		p.Schema = "other:" + rs + "|" + ls
+	case repAlt && (lexAlt || !hasLs):
+		p.Schema = "alt"
+	case repAlt:
+		p.Schema = "altRep"
+	case lexAlt:
+		p.Schema = "altLex"
+	default:
+		p.Schema = "default"
 	}
+	p.HasLexicalSchema = hasLs
 	return p
 }
 
@@ -183,9 +193,13 @@ func runReport(c rpCase) (o rpObs) {
 	clock := fixedClock{t}
 	cfg := config.DefaultReportConfiguration()
 	cfg.IncludeReportCreationTime = c.Cfg.IncludeDate
-	if c.Cfg.Schema == "alt" {
-		cfg.ReportSchemaIri = altReportSchema
+	switch c.Cfg.Schema {
+	case "alt":
+		cfg.ReportSchemaIri, cfg.LexicalSchemaIri = altReportSchema, altLexicalSchema
+	case "altLex":
 		cfg.LexicalSchemaIri = altLexicalSchema
+	case "altRep":
+		cfg.ReportSchemaIri = altReportSchema
 	}
 	func() {
 		defer func() {
